@@ -83,6 +83,9 @@ type VerifServerScript struct {
 	HRRGroup  CurveID // key_share selected_group in the HRR (0 = none); implies a HRR
 	HRRCookie []byte  // cookie extension in the HRR; non-nil implies a HRR
 	HRRSuite  uint16  // cipher suite field of the HRR only (0 = same as the ServerHello)
+	// OverridesAfterHRROnly: the HelloRetryRequest is sent honest (only HRRGroup/HRRCookie/HRRSuite apply to it);
+	// Suite, CompressionMethod, SessionID and the raw version fields are applied to the ServerHello that follows.
+	OverridesAfterHRROnly bool
 
 	// ---- certificate compression (C12, C21) ----
 	CertCompression     uint16  // non-zero: send CompressedCertificate with this algorithm id
@@ -288,7 +291,8 @@ func (v *verifServer) doctor13(ch *clientHelloMsg, pinSuite uint16, afterHRR boo
 		}
 	}
 	g := s.Group
-	if g == 0 && afterHRR {
+	if afterHRR && (g == 0 || !verifImplGroup13(g)) {
+		// answer with the share the HRR asked for (a forced group nobody implements is written over it later)
 		g = s.HRRGroup
 	}
 	if g != 0 && verifImplGroup13(g) {
@@ -402,7 +406,15 @@ func (v *verifServer) handshake13(ch *clientHelloMsg) error {
 			selectedGroup:     s.HRRGroup,
 			cookie:            s.HRRCookie,
 		}
-		v.overrideHello(hrr, true)
+		if s.OverridesAfterHRROnly {
+			if s.HRRSuite != 0 {
+				hrr.cipherSuite = s.HRRSuite
+			}
+			s.Trace.HRRSuite = hrr.cipherSuite
+			s.Trace.HelloVers, s.Trace.HelloSV = hrr.vers, hrr.supportedVersion
+		} else {
+			v.overrideHello(hrr, true)
+		}
 		if err := v.send(hrr, tr); err != nil {
 			return err
 		}
